@@ -13,17 +13,16 @@ REQUIRED = ['winning_votes_is_textbook', 'margins_is_textbook', 'pairwise_opposi
             'cw_copeland', 'cw_minimax_wv', 'cw_minimax_margins', 'cw_schulze', 'cw_benham', 'cw_tideman',
             'cw_rankedpairs_partial', 'cw_kemeny_partial', 'kemeny_is_argmax', 'kemeny_refusal',
             'copeland_in_smith', 'schulze_in_smith', 'kemeny_in_smith', 'rankedpairs_in_smith', 'tideman_in_smith',
-            'lockPairs_acyclic', 'isPath_iff', 'benham_in_smith_witness', 'copeland_defining', 'minimax_defining', 'worstDefeat_is_max', 'widestPaths_correct', 'winWeight_is_win_count',
+            'lockPairs_acyclic', 'isPath_iff', 'benham_tie_refused_not_outsider', 'eliminateOne_no_mixed_tie', 'no_contest_refused',
+            'benham_in_smith', 'subset_preserves_pairwise', 'wf_of_profileOK', 'copeland_defining', 'minimax_defining', 'worstDefeat_is_max', 'widestPaths_correct', 'winWeight_is_win_count',
             'no_candidate_dropped_copeland', 'no_candidate_dropped_minimax', 'no_candidate_dropped_schulze',
             'cw_rankedpairs_witness', 'cw_kemeny_witness', 'rankedpairs_dropped_witness', 'minimax_never_loser_fixed',
-            'benham_elimination_tie_witness', 'tideman_elimination_tie_witness', 'tideman_last_tie_witness',
+            'benham_elimination_tie_refused', 'tideman_elimination_tie_refused', 'tideman_last_tie_refused',
             'tidemanN_one', 'tideman_all_seats_example', 'lone_candidate_elected']
 UNPROVED = ['cw_rankedpairs (rankedPairs sc v 1 = ok [w]): FALSE as stated on the current code (cw_rankedpairs_witness: refusal '
             'although a Condorcet winner exists); proved instead: cw_rankedpairs_partial (whenever it answers, it answers [w])',
             'cw_kemeny (kemenyYoung v 1 = ok [w]): FALSE as stated on the current code (cw_kemeny_witness: refusal when a lower '
             'place ties); proved instead: cw_kemeny_partial (elects exactly w or refuses with NotImplementedError)',
-            'benham_in_smith: FALSE on the current code (benham_in_smith_witness: an elimination tie removes every tied '
-            'candidate, here the whole Smith set)',
             'rankedpairs no_candidate_dropped: FALSE (rankedpairs_dropped_witness)',
             'copeland second-order defining computation (only the first-order scores are characterised: copeland_defining)']
 NAME_MODES = ['str', 'int0', 'empty0', 'person', 'tuple']
@@ -729,10 +728,9 @@ LEVEL_TEXT = ('All ten registered Condorcet evaluators, the three pairwise win s
               'Copeland (both variants), minimax by winning votes and by margins, Schulze, Benham and Tideman alternative elect exactly '
               'the Condorcet winner for one seat; ranked pairs (all three scorers) and Kemeny-Young never elect anybody else (they '
               'answer [w] or refuse); Kemeny-Young answers only with the head of the unique best order; every candidate Copeland names '
-              'or Schulze names for one seat, and the first place of every Kemeny-Young, ranked-pairs and Tideman-alternative answer, lies in the Smith set; the locked pairs of ranked pairs are acyclic; the widest_paths table of Schulze is the max over chains of the min win count; Copeland ranks by wins minus losses and minimax by the worst defeat over all opponents (absent pair = 0:0); Copeland, Schulze and minimax list every '
+              'or Schulze names for one seat, and the first place of every Kemeny-Young, ranked-pairs, Benham and Tideman-alternative answer, lies in the Smith set; the locked pairs of ranked pairs are acyclic; the widest_paths table of Schulze is the max over chains of the min win count; Copeland ranks by wins minus losses and minimax by the worst defeat over all opponents (absent pair = 0:0); Copeland, Schulze and minimax list every '
               'candidate when there are as many seats as candidates.  Where the current code does not meet the '
-              'property (ranked pairs and Kemeny-Young refusals with a Condorcet winner, ranked pairs dropping candidates, '
-              'hybrids crashing on elimination ties) the negation is proved on a concrete witness and the defect '
+              'property (ranked pairs and Kemeny-Young refusals with a Condorcet winner, ranked pairs dropping candidates) the negation is proved on a concrete witness and the defect '
               'is a listed open finding.')
 LEVEL_NOTE = ('Trusted: Lean kernel + propext/Classical.choice/Quot.sound; the correspondence harness (bounded by its generator: 2-6 '
               'candidates, int/Fraction counts, profiles of up to 6 ballots); CPython dict order, set iteration order canonicalised as '
